@@ -51,8 +51,9 @@ TRUSTED_BASE = [
     "content; power-failure page-cache loss is out of scope",
 ]
 ASSUMPTIONS = [
-    "event streams satisfy C07's grammar with unique test/suite paths (`SafeStream`: no event targets a finished item); "
-    "checked on every generated and every recorded real stream by the driver",
+    "event streams satisfy C07's grammar (Grammar.WellFormedPrefix, strict mode) with unique test/suite paths "
+    "(Grammar.Fresh) — theorem safe_of_grammar then gives SafeStream; all three are evaluated by the driver on every "
+    "generated and every recorded real stream",
     "the report file is only written by FileReportSession through save_report_into_file (json_.py / xml.py / junit.py)",
     "fixes/D16-atomic-report-save.diff is applied to the tree under test (the model mirrors the repaired save; on the "
     "unrepaired tree the crash stream reports the violation D16)",
@@ -62,9 +63,9 @@ RULE = ("snap: a case counts if at least one intermediate save (a save before th
         "some strategy and the stream has >= 2 results; crash: the death point lies strictly inside a save (after the "
         "open, before the save is complete) of a run with >= 2 saves; reader: >= 1 load completed between the first and "
         "the last save and >= 2 distinct snapshots were seen; distinct = hash of the case")
-EXPLANATION = ("Lean theorems LccModel.C10.* (Prefix preorder, writer frame property for every handler, snapshot = report of "
-               "a stream prefix, strategy points, final save, crash safety of tmp+rename over all crash points, refutation "
-               "of truncate-in-place); tied to the code by strategy/handler tables extracted by execution and by the "
+EXPLANATION = ("Lean theorems LccModel.C10.* (Prefix preorder, writer frame property for every handler, C07's grammar + unique "
+               "paths imply that no event targets a finished item, snapshot = report of a stream prefix, strategy points, "
+               "final save, crash safety of tmp+rename over all crash points, refutation of truncate-in-place); tied to the code by strategy/handler tables extracted by execution and by the "
                "streams C10.snap / C10.crash / C10.reader against the real writer, file sessions, loader and OS.")
 
 STATIC = ["at_end_of_tests", "at_each_suite", "at_each_test", "at_each_failed_test", "at_each_log"]
